@@ -216,6 +216,15 @@ def case_multi(ctx, idx, mods, texts, max_perms):
                 open(os.path.join(P2, names[i]), "w").write(t)
             rcb, treeb, _ = gen_code(asn1c, skel, P2, [names[i] for i in perm], env=padded_env(4099))
             res["det"] = (rcb, diff_trees(tree, treeb))
+            # the printed form of the whole module set (one text) must be accepted and compile too
+            rce, t1, see = asn1c_E(asn1c, P, [names[i] for i in perm])
+            res["E"] = (rce, see)
+            if rce == 0:
+                P3 = os.path.join(d, "p0c")
+                os.makedirs(os.path.join(P3, "in"))
+                open(os.path.join(P3, "in/all.asn1"), "wb").write(t1)
+                rc3, tree3, se3 = gen_code(asn1c, skel, P3, ["in/all.asn1"])
+                res["gen_printed"] = (rc3, se3[-300:], sorted(per_type(tree3)) == sorted(per_type(tree)))
             continue
         if rc != 0:
             res["diffs"].append((perm, "rc=%d" % rc, se[-300:]))
@@ -480,6 +489,19 @@ def main(tier):
         rcb, db = r["det"]
         if rcb != 0 or db:
             run.violation("oracle:determinism", dict(rep, what="repeated multi-file runs differ", files=db[:10]))
+        rce, see = r["E"]
+        has_imports = any(imps for _, imps in mods)
+        if rce != 0:
+            run.violation("oracle:generated-module-rejected", dict(rep, what="asn1c -E rejects a generated module set", stderr=see))
+        else:
+            rc3, se3, same_names = r["gen_printed"]
+            if rc3 != 0 and has_imports and "Unknown" in se3:
+                run.known_finding("C12-imports-dropped", "multi")
+                run.count("multi_printed_known:C12-imports-dropped")
+            elif rc3 != 0 or not same_names:
+                run.violation("oracle:same-code", dict(rep, what="printed form of a compilable module set does not compile to the same set of per-type files", stderr=se3))
+            else:
+                run.count("multi_printed_compiles")
 
     # 5. shipped corpus ------------------------------------------------------
     files = corpus_files()
